@@ -669,6 +669,8 @@ class World:
                 return self.ident(e.args[IDENT_ARG[k]], depth + 1, expand_ws)
             if k == "vec!":
                 return e
+            if isinstance(k, str) and (k == "std::default::Default::default" or k.endswith("Default>::default")) and not e.args:
+                return DEFAULT  # `T::default()` is the same missing-entry value as `unwrap_or_default()`
             if isinstance(k, str) and k.rsplit("::", 1)[-1] in CHECKED_ARITH and len(e.args) == 2 and self.callee_body(e) is None:
                 # library checked_add/sub/mul(a, b): canonical operator form (Ok payload; Err aborts like the operator's panic)
                 return E("bin", e.args, CHECKED_ARITH[k.rsplit("::", 1)[-1]], e.site)
